@@ -28,7 +28,7 @@ import drive
 import drive_persist as dp
 from corr import c06
 
-THEOREMS = ['RB.Session.c08_resume_equiv_partial', 'RB.Session.c08_rerun_noop', 'RB.Session.c08_final_recorded_spec',
+THEOREMS = ['RB.Session.c08_resume_equiv', 'RB.Session.c08_resume_equiv_counts', 'RB.Session.c08_rerun_noop', 'RB.Session.c08_final_recorded_spec',
             'RB.Session.c08_interrupted_safe']
 SCHEDS = ['batch', 'round-robin', 'random']
 
@@ -117,7 +117,7 @@ def judge(ck, inp, probe, outputs, observed, ans, ctl):
             lines, _m = dp.canon_lines(ob.files[fi][len(ob.before[fi]):] if kept else ob.files[fi], probe)
             impl_files.append({'prefix_kept': kept, 'appended': lines})
         impl = {'end': impl_end, 'trace': ob.starts, 'files': impl_files}
-        model = {'end': ms['end'], 'trace': ms['trace'], 'files': ms['files']}
+        model = {'end': ms['end'], 'trace': ms['trace'], 'files': [{'prefix_kept': f['prefix_kept'], 'appended': f['appended']} for f in ms['files']]}
         if impl != model:
             what = [k for k in impl if impl[k] != model[k]]
             ck.disagree('c08.sessions: session %d differs in %s' % (si, what), dict(inp, session=si),
@@ -311,7 +311,7 @@ def run(ck):
                       'the harness is deterministic: output is a function of run and invocation number; exit 127 and '
                       'OSError are excluded (C04, C13)']
     ck.exhaustive = True
-    n_scen = 10 if quick else 80
+    n_scen = 10 if quick else 70
     items, done, idx = [], 0, 0
     for name, data in c06.load_corpus(ck):
         scen = data['input']
